@@ -157,7 +157,7 @@ class Adapter(EnvAdapter):
     def configs(self, tier):
         if tier == "quick":
             return [
-                _c("default_tnone", "default", None, episodes=3, max_steps=45, policies=["dive", "explore", "random"]),
+                _c("default_tnone", "default", None, episodes=4, max_steps=45, policies=["dive", "explore", "random", "border"]),
                 _c("default_t7", "default", 7, episodes=2, max_steps=10, policies=["explore", "random"]),
                 _c("mini_tnone", "mini", None, episodes=6, max_steps=60, policies=POL),
                 _c("tall_t3", "tall", 3, episodes=4, max_steps=6, policies=POL),
@@ -170,7 +170,7 @@ class Adapter(EnvAdapter):
                 _c("sealed_tnone", "sealed", None, episodes=1, max_steps=1003, probe_every=50, policies=["explore"]),
             ]
         out = [_c("default_tnone", "default", None, episodes=12, max_steps=160,
-                  policies=["dive", "explore", "random", "mostly_masked", "explore", "masked"])]
+                  policies=["dive", "explore", "random", "mostly_masked", "border", "masked"])]
         for tl in (1, 2, 3, 7):
             out.append(_c(f"default_t{tl}", "default", tl, episodes=4, max_steps=tl + 3, policies=POL))
         for mz in ("mini", "tall", "halfopen", "sealed"):
